@@ -43,6 +43,13 @@ def canon(tree):
             tup = ast.Tuple(elts=parts, ctx=ast.Load())
             ast.copy_location(tup, n.args[1])
             n.args[1] = tup
+        # tuple([x for ...]) and tuple(x for ...) build the same value
+        if isinstance(n, ast.Call) and isinstance(n.func, ast.Name) \
+                and n.func.id in _ITER_CONSUMERS and len(n.args) == 1 \
+                and isinstance(n.args[0], ast.ListComp):
+            g = ast.GeneratorExp(elt=n.args[0].elt, generators=n.args[0].generators)
+            ast.copy_location(g, n.args[0])
+            n.args[0] = g
         # a literal compared with == / != / is stands on the right
         if isinstance(n, ast.Compare) and len(n.ops) == 1 and isinstance(
                 n.ops[0], (ast.Eq, ast.NotEq, ast.Is, ast.IsNot)) \
@@ -51,6 +58,10 @@ def canon(tree):
                          and not _is_lit(n.comparators[0]))):
             n.left, n.comparators = n.comparators[0], [n.left]
     return tree
+
+
+_ITER_CONSUMERS = {"tuple", "list", "set", "frozenset", "sorted", "any", "all", "sum",
+                   "min", "max", "dict", "constantdict", "FrozenOrderedSet", "OrderedSet"}
 
 
 def _is_const_name(x):
